@@ -367,6 +367,9 @@ class FragGen:
 
     def int_expr(self, env, d):
         r = self.r
+        if self.stage >= 4 and env.get("funs") and d > 0 and r.random() < 0.2:
+            f, n = r.choice(env["funs"])
+            return "%s(%s)" % (f, ", ".join(str(r.randint(0, 3)) if r.random() < 0.5 else self.int_expr(env, 0) for _ in range(n)))
         if d <= 0 or r.random() < 0.3:
             if env["ints"] and r.random() < 0.65:
                 return r.choice(env["ints"])
@@ -378,6 +381,9 @@ class FragGen:
             return "(-%s)" % self.int_expr(env, d - 1)
         if self.stage >= 2 and k < 0.9:
             return "(if %s do %s else %s end)" % (self.bool_expr(env, d - 1), self.int_expr(env, d - 1), self.int_expr(env, d - 1))
+        if self.stage >= 4 and env.get("funs") and k < 0.98:
+            f, n = r.choice(env["funs"])
+            return "%s(%s)" % (f, ", ".join(str(r.randint(0, 3)) if r.random() < 0.5 else self.int_expr(env, 0) for _ in range(n)))
         return self.int_expr(env, d - 1)
 
     def bool_expr(self, env, d):
@@ -469,10 +475,33 @@ class FragGen:
                     g = self.fresh("h")
                     out.append("%s :: %s" % (g, self.bool_expr(env, 2)))
                     env["bools"].append(g)
+        if self.stage >= 4:
+            # stage 3b: top-level functions (parameters, value of the last expression, recursion), called by name
+            for _ in range(self.r.randint(1, 3)):
+                out += self.function(env)
         out.append("start :: fn do")
         out += self.block(env, 2, 1, self.r.randint(3, 8))
         out.append("end")
         return "\n".join(out) + "\n"
+
+    def function(self, env):
+        r = self.r
+        f = self.fresh("f")
+        nparams = r.randint(0, 3)
+        params = [self.fresh("p") for _ in range(nparams)]
+        fenv = {"ints": list(env["ints"]) + params, "bools": list(env["bools"]), "muts": [], "funs": list(env.get("funs", []))}
+        out = ["%s :: fn %s-> int do" % (f, "".join("%s: int, " % p for p in params)[:-2] + " " if params else "")]
+        if params and r.random() < 0.5:
+            # a recursion that counts its first parameter down
+            p0 = params[0]
+            rest = ", ".join(params[1:])
+            out.append("  if %s <= 0 do %s else %s + %s(%s - 1%s) end" % (p0, self.int_expr(fenv, 1), self.int_expr(fenv, 1), f, p0, (", " + rest) if rest else ""))
+        else:
+            out += self.block(fenv, 1, 1, r.randint(0, 3))
+            out.append("  %s" % self.int_expr(fenv, 2))
+        out.append("end")
+        env.setdefault("funs", []).append((f, nparams))
+        return out
 
 
 def fragment_program(r, stage=1):
